@@ -113,3 +113,17 @@ def mysql_handshake_v10(o):
     if plugin_auth:
         parts += [seq(o.f['auth_plugin_name']), u8(0)]
     return cat(*parts)
+
+
+# ---- MySQL Protocol::SSLRequest. With CLIENT_PROTOCOL_41: int<4> capability flags, int<4> max packet size, int<1> character
+#      set, string[23] reserved (all zero). Without it (Protocol::HandshakeResponse320 style): int<2> capability flags,
+#      int<3> max packet size. All integers little endian; flag values from the specification's own table.
+@spec('MySQLHandshakeSslRequest')
+def mysql_ssl_request(o):
+    from cryptoparser.tls.mysql import MySQLCapability
+    from spec.tables import TABLES
+    caps = o.f['capabilities']
+    value = named_flags_value(caps, TABLES['MySQLCapability'])
+    if flag_present(caps, MySQLCapability.CLIENT_PROTOCOL_41):
+        return cat(le(value, 4), le(o.f['max_packet_size'], 4), u8(o.f['character_set']), V.conc_seq(bytes(23), 'bytes'))
+    return cat(le(value, 2), le(o.f['max_packet_size'], 3))
